@@ -199,10 +199,23 @@ def check_store(p, kind, cases, base, mk):
             except Exception as e:
                 p['violations'].append(violation(PID, 'properties-wrong-error-with-option-off', dict(case, text=text[:500]), observed=exc_info(e),
                                                  detail=f'option off: raised {type(e).__name__}, expected a syntax error'))
-        # rendered back so that they round-trip (single-line values; multi-line values: C02/C13 recorded finding)
-        if single_line_only(m):
+        # rendered back so that they round-trip (single-line values; multi-line values: C02/C13 recorded finding - those entries are
+        # taken out of the pack for this clause, the rest of the pack is still round-tripped)
+        db_rt, exp_rt = db, exp
+        if not single_line_only(m):
+            m_rt = A.clone(m)
+            for t in m_rt['tables']:
+                t['properties'] = [kv for kv in t['properties'] if '\n' not in kv[1]]
+                for c in t['columns']:
+                    c['properties'] = [kv for kv in c['properties'] if '\n' not in kv[1]]
             try:
-                t1 = db.dbml
+                db_rt, exp_rt = parse(writer.write(m_rt, st), True), writer.expected(m_rt)
+            except Exception:
+                db_rt = None
+        if db_rt is not None:
+            exp = exp_rt
+            try:
+                t1 = db_rt.dbml
                 back = parse(t1, True)
                 g2 = canon.strip_comments(canon.canon(back))
                 if not canon.same(canon.partition_refs(g2), canon.partition_refs(canon.strip_comments(exp))):
